@@ -306,4 +306,156 @@ theorem Prob.check_sound (p : Prob) (bs : List Nat) (h : p.check bs = true) :
     rw [List.map_congr_left e1, List.map_congr_left e2] at hv
     exact hv
 
+/-! ### guarded problems: `∀ s, rmatch guard s → good …`
+
+Once the guard regex is dead (its derivative is `∅`) the statement holds for every continuation, so such
+states need neither be expanded nor closed under derivatives.  This keeps the explored set down to the
+prefixes of the guard language. -/
+
+theorem derivs_empty' (s : List Nat) : derivs Re.empty s = Re.empty := by
+  induction s with
+  | nil => rfl
+  | cons c s ih => exact ih
+
+def isDead : Re → Bool
+  | .empty => true
+  | _ => false
+
+theorem isDead_eq (r : Re) (h : isDead r = true) : r = .empty := by
+  cases r <;> simp_all [isDead]
+
+def closedG (bs : List Nat) (good : List Bool → Bool) (R : List Vec) : Bool :=
+  R.all (fun v =>
+    match v with
+    | g :: rest =>
+      isDead g || (((!nullable g) || good (nulls rest)) && boundsOk bs v
+        && (0 :: bs).all (fun c => R.contains (stepV c v)))
+    | [] => false)
+
+def exploreG (bs : List Nat) : Nat → List Vec → List Vec → List Vec
+  | 0, _, seen => seen
+  | _, [], seen => seen
+  | fuel+1, v :: todo, seen =>
+    if seen.contains v then exploreG bs fuel todo seen
+    else
+      match v with
+      | g :: _ =>
+        if isDead g then exploreG bs fuel todo (v :: seen)
+        else exploreG bs fuel ((0 :: bs).map (fun c => stepV c v) ++ todo) (v :: seen)
+      | [] => exploreG bs fuel todo (v :: seen)
+
+theorem closedG_sound (bs : List Nat) (good : List Bool → Bool) (R : List Vec)
+    (hc : closedG bs good R = true) :
+    ∀ (s : List Nat) (g : Re) (rest : Vec), (g :: rest) ∈ R →
+      rmatch g s = true → good (nulls (runV rest s)) = true := by
+  intro s
+  induction s with
+  | nil =>
+    intro g rest hv hm
+    simp only [closedG, List.all_eq_true] at hc
+    have := hc _ hv
+    simp only [Bool.or_eq_true, Bool.and_eq_true] at this
+    rcases this with hd | ⟨⟨hg, _⟩, _⟩
+    · rw [isDead_eq g hd] at hm; simp [rmatch, derivs, nullable] at hm
+    · simp only [rmatch, derivs, List.foldl_nil] at hm
+      rw [hm] at hg
+      simpa [runV] using hg
+  | cons c s ih =>
+    intro g rest hv hm
+    have hcv := hc
+    simp only [closedG, List.all_eq_true] at hcv
+    have := hcv _ hv
+    simp only [Bool.or_eq_true, Bool.and_eq_true, List.all_eq_true] at this
+    rcases this with hd | ⟨⟨_, hb⟩, hstep⟩
+    · rw [isDead_eq g hd] at hm
+      simp [rmatch, derivs_empty', nullable] at hm
+    · have hrep : rep' bs c ∈ (0 :: bs) := by
+        rcases rep'_mem bs c with h | h
+        · exact List.mem_cons_of_mem _ h
+        · rw [h]; exact List.mem_cons_self
+      have hin := hstep _ hrep
+      have hin' : stepV (rep' bs c) (g :: rest) ∈ R := by simpa using hin
+      have hs := stepV_rep bs c (g :: rest) hb
+      rw [← hs] at hin'
+      have hcons : stepV c (g :: rest) = deriv c g :: stepV c rest := by simp [stepV]
+      rw [hcons] at hin'
+      have := ih (deriv c g) (stepV c rest) hin' (by simpa [rmatch, derivs] using hm)
+      simpa [runV] using this
+
+def vecCheckG (bs : List Nat) (g : Re) (v : Vec) (good : List Bool → Bool) : Bool :=
+  let R := exploreG bs 1000000 [g :: v] []
+  R.contains (g :: v) && closedG bs good R
+
+theorem vecCheckG_sound (bs : List Nat) (g : Re) (v : Vec) (good : List Bool → Bool)
+    (h : vecCheckG bs g v good = true) :
+    ∀ s, rmatch g s = true → good (v.map (fun r => rmatch r s)) = true := by
+  intro s hm
+  simp only [vecCheckG, Bool.and_eq_true] at h
+  have hin : (g :: v) ∈ exploreG bs 1000000 [g :: v] [] := by simpa using h.1
+  have := closedG_sound _ _ _ h.2 s g v hin hm
+  rwa [nulls_runV] at this
+
+/-- a guarded problem: for every string the guard matches, `base.good` holds -/
+structure GProb where
+  guard : Re
+  base : Prob
+
+def GProb.bounds (p : GProb) : List Nat :=
+  ((p.guard :: p.base.allRes).flatMap Re.bounds ++ p.base.tbls.flatMap keyBounds).foldr insertSorted []
+
+def GProb.check (p : GProb) (bs : List Nat) : Bool :=
+  ((!nullable p.guard) || p.base.good (p.base.tbls.map (fun tbl => resolve tbl [])) (p.base.specs.map nullable))
+  && p.base.tbls.all (fun tbl => keysOk bs tbl && boundsOk bs (tbl.map (·.re)))
+  && boundsOk bs (p.guard :: p.base.specs)
+  && (dedup ((0 :: bs).map (fun c => (p.base.segsAt c, deriv c p.guard, p.base.vecAt c)))).all
+      (fun sv => vecCheckG bs sv.2.1 sv.2.2 (p.base.goodOf sv.1))
+
+theorem GProb.check_sound (p : GProb) (bs : List Nat) (h : p.check bs = true) :
+    ∀ s, rmatch p.guard s = true →
+      p.base.good (p.base.tbls.map (fun tbl => resolve tbl s)) (p.base.specs.map (fun r => rmatch r s)) = true := by
+  intro s hm
+  simp only [GProb.check, Bool.and_eq_true, List.all_eq_true] at h
+  obtain ⟨⟨⟨h0, htb⟩, hsp⟩, hvec⟩ := h
+  cases s with
+  | nil =>
+    simp only [rmatch_nil] at hm
+    simpa [rmatch_nil, hm] using h0
+  | cons c w =>
+    have hrep : rep' bs c ∈ (0 :: bs) := by
+      rcases rep'_mem bs c with h | h
+      · exact List.mem_cons_of_mem _ h
+      · rw [h]; exact List.mem_cons_self
+    have hmem : (p.base.segsAt (rep' bs c), deriv (rep' bs c) p.guard, p.base.vecAt (rep' bs c)) ∈
+        dedup ((0 :: bs).map (fun c => (p.base.segsAt c, deriv c p.guard, p.base.vecAt c))) :=
+      mem_dedup _ _ (List.mem_map.mpr ⟨_, hrep, rfl⟩)
+    have hsp' : boundsOk bs [p.guard] = true ∧ boundsOk bs p.base.specs = true := by
+      simp only [boundsOk, List.all_cons, Bool.and_eq_true] at hsp ⊢
+      exact ⟨⟨hsp.1, by simp⟩, hsp.2⟩
+    have hg : deriv (rep' bs c) p.guard = deriv c p.guard := by
+      symm
+      apply deriv_rep
+      intro b hbm
+      have := hsp'.1
+      simp only [boundsOk, List.all_cons, List.all_nil, Bool.and_true, List.all_eq_true] at this
+      simpa using this b hbm
+    have hv := vecCheckG_sound _ _ _ _ (hvec _ hmem) w (by rw [hg]; simpa [rmatch_cons] using hm)
+    change p.base.goodAt (rep' bs c) _ = true at hv
+    rw [goodAt_spec] at hv
+    have e1 : ∀ tbl ∈ p.base.tbls, resolve tbl (rep' bs c :: w) = resolve tbl (c :: w) := by
+      intro tbl ht
+      have := htb tbl ht
+      rw [resolve_cons, resolve_cons, ← after_rep bs tbl c this.1 this.2]
+    have e2 : ∀ r ∈ p.base.specs, rmatch r (rep' bs c :: w) = rmatch r (c :: w) := by
+      intro r hr
+      rw [rmatch_cons, rmatch_cons]
+      congr 1
+      symm
+      apply deriv_rep
+      intro b hbm
+      have := hsp'.2
+      simp only [boundsOk, List.all_eq_true] at this
+      simpa using this r hr b hbm
+    rw [List.map_congr_left e1, List.map_congr_left e2] at hv
+    exact hv
+
 end YatimlModel
